@@ -1086,10 +1086,147 @@ theorem inv_init {s s' : St} {v : Variant} {funder owner : Addr} {funds : Int} {
     cases v <;> simp [fL, fS, fP, hs, sumUnb] <;> omega
   · intro hc; simp at hc
 
+theorem proxyOf_cases (d : Addr) : (proxyOf d = "plock") ∨ (proxyOf d = "pown") := by
+  unfold proxyOf; split <;> simp
+
+theorem inv_pxUndelegate {s s' : St} {d c sd : Addr} {amt : Int} {e : Ext} (hI : Inv s) (he : extOk e)
+    (h : doPxUndelegate s d c sd amt e = .ok s') : Inv s' := by
+  simp only [doPxUndelegate] at h
+  split at h; · simp at h
+  split at h; · simp at h
+  split at h; · simp at h
+  rename_i hneg
+  split at h; · simp at h
+  rename_i hz
+  split at h; · simp at h
+  split at h; · simp at h
+  rename_i hst
+  simp only [Res.ok.injEq] at h
+  subst h
+  have hamt : 0 < amt := by omega
+  have hpl : proxyOf d ≠ lock := by unfold proxyOf lock; split <;> decide
+  have fL : (claim s.bank (proxyOf d) e).bal lock fee = s.bank.bal lock fee := by
+    rw [claim_bal]; simp [Ne.symm hpl]
+  have fS : (claim s.bank (proxyOf d) e).bal lock shareD = s.bank.bal lock shareD := by
+    rw [claim_bal]; simp [fee, bond, shareD]
+  have hsu := sumUnb_append "plock" s.ubds ⟨proxyOf d, amt, s.now + s.ut⟩
+  rcases proxyOf_cases d with hp | hp
+  · -- the lockup's own proxy: stake moves into the unbonding list
+    have fP : (claim s.bank (proxyOf d) e).bal "plock" bond = s.bank.bal "plock" bond + e.rewBond := by
+      rw [claim_bal, hp]; simp [fee, bond]
+    rw [hp] at hst
+    have hsu : sumUnb "plock" (s.ubds ++ [⟨proxyOf d, amt, s.now + s.ut⟩]) = sumUnb "plock" s.ubds + amt := by
+      rw [hsu]; simp [hp]
+    constructor
+    · exact hI.ol0
+    · exact hI.ut0
+    · exact hI.dv0
+    · exact hI.df0
+    · show 0 ≤ (claim s.bank (proxyOf d) e).bal lock fee; rw [fL]; exact hI.bL0
+    · show 0 ≤ (claim s.bank (proxyOf d) e).bal lock shareD; rw [fS]; exact hI.bS0
+    · show 0 ≤ (claim s.bank (proxyOf d) e).bal "plock" bond; rw [fP]; have := hI.bP0; have := he.2; omega
+    · show 0 ≤ (if "plock" = proxyOf d then s.stake (proxyOf d) - amt else s.stake "plock")
+      rw [hp]; simp; omega
+    · intro u hu
+      simp only [List.mem_append, List.mem_singleton] at hu
+      rcases hu with hu | hu
+      · exact hI.ubd0 u hu
+      · subst hu; exact ⟨by show 0 ≤ amt; omega, Or.inl hp⟩
+    · exact hI.sc0
+    · intro hc t l ht hl
+      have := hI.cover hc t l ht hl
+      show l - s.DV ≤ (claim s.bank (proxyOf d) e).bal lock fee
+      rw [fL]; exact this
+    · have := hI.tracked
+      have := he.2
+      unfold actualDelegated at *
+      cases hv : s.variant <;> simp only [hv] at *
+      · show s.DV + s.DF ≤ (claim s.bank (proxyOf d) e).bal lock shareD + sumEntries s.entries
+        rw [fS]; assumption
+      · show s.DV + s.DF ≤ (if "plock" = proxyOf d then s.stake (proxyOf d) - amt else s.stake "plock")
+            + sumUnb "plock" (s.ubds ++ [⟨proxyOf d, amt, s.now + s.ut⟩]) + (claim s.bank (proxyOf d) e).bal "plock" bond
+        rw [fP, hsu]
+        have e1 : (if "plock" = proxyOf d then s.stake (proxyOf d) - amt else s.stake "plock") = s.stake "plock" - amt := by
+          rw [hp]; simp
+        rw [e1]; omega
+    · intro hv hb
+      have := hI.liveNv hv hb
+      show s.DV + s.DF ≤ (claim s.bank (proxyOf d) e).bal lock shareD + sumUnb lock s.scUnb
+      rw [fS]; exact this
+    · exact hI.scHead
+    · exact hI.headUt
+    · intro hc t l ht hl
+      have := hI.cust hc t l ht hl
+      have := he.2
+      unfold custody at *
+      cases hv : s.variant <;> simp only [hv] at *
+      · show l ≤ (claim s.bank (proxyOf d) e).bal lock fee + (claim s.bank (proxyOf d) e).bal lock shareD + sumUnb lock s.scUnb
+        rw [fL, fS]; assumption
+      · show l ≤ (claim s.bank (proxyOf d) e).bal lock fee + (claim s.bank (proxyOf d) e).bal "plock" bond
+            + (if "plock" = proxyOf d then s.stake (proxyOf d) - amt else s.stake "plock")
+            + sumUnb "plock" (s.ubds ++ [⟨proxyOf d, amt, s.now + s.ut⟩])
+        rw [fL, fP, hsu]
+        have e1 : (if "plock" = proxyOf d then s.stake (proxyOf d) - amt else s.stake "plock") = s.stake "plock" - amt := by
+          rw [hp]; simp
+        rw [e1]; omega
+    · exact hI.pre
+  · -- somebody else's proxy: nothing of the lockup moves
+    have fP : (claim s.bank (proxyOf d) e).bal "plock" bond = s.bank.bal "plock" bond := by
+      rw [claim_bal, hp]; simp
+    have hsu : sumUnb "plock" (s.ubds ++ [⟨proxyOf d, amt, s.now + s.ut⟩]) = sumUnb "plock" s.ubds := by
+      rw [hsu]; simp [hp]
+    have hstk : (if "plock" = proxyOf d then s.stake (proxyOf d) - amt else s.stake "plock") = s.stake "plock" := by
+      rw [hp]; simp
+    constructor
+    · exact hI.ol0
+    · exact hI.ut0
+    · exact hI.dv0
+    · exact hI.df0
+    · show 0 ≤ (claim s.bank (proxyOf d) e).bal lock fee; rw [fL]; exact hI.bL0
+    · show 0 ≤ (claim s.bank (proxyOf d) e).bal lock shareD; rw [fS]; exact hI.bS0
+    · show 0 ≤ (claim s.bank (proxyOf d) e).bal "plock" bond; rw [fP]; exact hI.bP0
+    · show 0 ≤ (if "plock" = proxyOf d then s.stake (proxyOf d) - amt else s.stake "plock")
+      rw [hstk]; exact hI.st0
+    · intro u hu
+      simp only [List.mem_append, List.mem_singleton] at hu
+      rcases hu with hu | hu
+      · exact hI.ubd0 u hu
+      · subst hu; exact ⟨by show 0 ≤ amt; omega, Or.inr hp⟩
+    · exact hI.sc0
+    · intro hc t l ht hl
+      have := hI.cover hc t l ht hl
+      show l - s.DV ≤ (claim s.bank (proxyOf d) e).bal lock fee
+      rw [fL]; exact this
+    · have := hI.tracked
+      unfold actualDelegated at *
+      cases hv : s.variant <;> simp only [hv] at *
+      · show s.DV + s.DF ≤ (claim s.bank (proxyOf d) e).bal lock shareD + sumEntries s.entries
+        rw [fS]; assumption
+      · show s.DV + s.DF ≤ (if "plock" = proxyOf d then s.stake (proxyOf d) - amt else s.stake "plock")
+            + sumUnb "plock" (s.ubds ++ [⟨proxyOf d, amt, s.now + s.ut⟩]) + (claim s.bank (proxyOf d) e).bal "plock" bond
+        rw [fP, hstk, hsu]; omega
+    · intro hv hb
+      have := hI.liveNv hv hb
+      show s.DV + s.DF ≤ (claim s.bank (proxyOf d) e).bal lock shareD + sumUnb lock s.scUnb
+      rw [fS]; exact this
+    · exact hI.scHead
+    · exact hI.headUt
+    · intro hc t l ht hl
+      have := hI.cust hc t l ht hl
+      unfold custody at *
+      cases hv : s.variant <;> simp only [hv] at *
+      · show l ≤ (claim s.bank (proxyOf d) e).bal lock fee + (claim s.bank (proxyOf d) e).bal lock shareD + sumUnb lock s.scUnb
+        rw [fL, fS]; assumption
+      · show l ≤ (claim s.bank (proxyOf d) e).bal lock fee + (claim s.bank (proxyOf d) e).bal "plock" bond
+            + (if "plock" = proxyOf d then s.stake (proxyOf d) - amt else s.stake "plock")
+            + sumUnb "plock" (s.ubds ++ [⟨proxyOf d, amt, s.now + s.ut⟩])
+        rw [fL, fP, hstk, hsu]; omega
+    · exact hI.pre
+
 /-- the operations for which preservation of the invariant is proved (see design/C12.md for the ones left out) -/
 def Core : Op → Prop
   | .init .. | .deposit .. | .block .. | .send .. | .nvDelegate .. | .nvUndelegate .. | .nvWithdrawReward ..
-  | .pxWithdrawReward .. | .pxSend .. => True
+  | .pxUndelegate .. | .pxWithdrawReward .. | .pxSend .. => True
   | _ => False
 
 theorem inv_halted {s : St} (hI : Inv s) : Inv { s with halted := true } :=
@@ -1114,6 +1251,7 @@ theorem inv_step {s : St} {op : Op} (hI : Inv s) (hc : Core op) (ho : OpOk op) :
       · exact inv_nvDelegate hI ho ha
       · exact inv_nvUndelegate hI ho ha
       · exact inv_nvWithdrawReward hI ho ha
+      · exact inv_pxUndelegate hI ho ha
       · exact inv_pxWithdrawReward hI ho ha
       · exact inv_pxSend hI ha
 
